@@ -15,8 +15,9 @@ SIG = {
 TEXT = b'lorem ipsum dolor sit amet, consectetur adipiscing elit sed do\n'
 
 
-VMDK_TEXT = (b'# Disk DescriptorFile\nversion=1\nCID=fffffffe\nparentCID=ffffffff\n'
-             b'createType="monolithicSparse"\n\n# Extent description\nRW 2048 SPARSE "disk.vmdk"\n')
+# createType comes first: the inspector looks at the text once 64 bytes of it are there
+VMDK_TEXT = (b'createType="monolithicSparse"\n# Disk DescriptorFile\nversion=1\nCID=fffffffe\nparentCID=ffffffff\n'
+             b'\n# Extent description\nRW 2048 SPARSE "disk.vmdk"\n')
 
 
 def build(c, rnd):
@@ -69,10 +70,10 @@ def build(c, rnd):
     return bytes(data)
 
 
-def decide_real(fi, data, read_size, allowed):
+def decide_real(fi, data, read_size, allowed, expected=None):
     """Read through InspectWrapper sampling the decision after every read."""
     from vf import insp
-    w = fi.InspectWrapper(io.BytesIO(data), allowed_formats=allowed)
+    w = fi.InspectWrapper(io.BytesIO(data), allowed_formats=allowed, **({'expected_format': expected} if expected else {}))
 
     def sample():
         try:
@@ -157,6 +158,17 @@ def _job(args):
             # text-descriptor mode is only defined when the first read covers the descriptor (finding F1)
             sizes = [s for s in (4096, 65536, 1 << 20) if s >= n] or [1 << 20]
         probs = []
+        if allowed:
+            # a format that is not allowed is not considered - naming it as the expected one does not bring it back
+            outside = [f for f in ('qcow2', 'vhd', 'vmdk', 'vdi', 'gpt', 'iso', 'luks', 'qed', 'vhdx') if f not in allowed]
+            if outside:
+                exp = outside[idx % len(outside)]
+                try:
+                    hist_e, names_e = decide_real(fi, data, 4096, allowed, expected=exp)
+                except Exception as e:
+                    hist_e, names_e = ['EXC:' + type(e).__name__], None
+                if hist_e[-1] != want_simple or (isinstance(names_e, list) and sorted(rec['formats']) != names_e):
+                    probs.append(('decision-with-expected-outside-allowed:' + exp, 4096, [hist_e[-1], names_e], want))
         for sz in sizes:
             hist, names = decide_real(fi, data, sz, allowed)
             final = hist[-1]
